@@ -35,6 +35,7 @@ type Plan struct {
 	Packages   []string    `json:"packages"`
 	Units      []Unit      `json:"units"`
 	Unclaimed  []Unclaimed `json:"unclaimed"`
+	DeadCalls  []Unclaimed `json:"dead_calls"` // calls in code the contracts make unreachable: their reachability guard is expected to be refuted
 	Decided    []string    `json:"decided"`
 	NotDecided []string    `json:"not_decided"`
 	Trusted    []string    `json:"trusted"`
@@ -252,6 +253,7 @@ func cmdCheck(args []string) int {
 			}
 		}
 	}
+	var dropped []*vc.Obligation // obligations of other properties' kinds: consulted only to explain a refuted reachability guard
 	if len(plan.Kinds) > 0 || len(claimRe) > 0 {
 		var kept []*vc.Obligation
 		for _, ob := range all {
@@ -273,13 +275,14 @@ func cmdCheck(args []string) int {
 					}
 				}
 			}
-			if ob.Kind == "cover" {
+			if ob.Cover {
 				ok = true
 			}
 			if ok {
 				kept = append(kept, ob)
 			} else {
 				otherKinds++
+				dropped = append(dropped, ob)
 			}
 		}
 		all = kept
@@ -334,6 +337,61 @@ func cmdCheck(args []string) int {
 			again = still
 		}
 	}
+	// reachability guards: one cheap attempt on the first sampled path of each call; the other
+	// samples are consulted only where the first one was refuted
+	{
+		first := map[string]bool{}
+		var stage1, stage2, rest []*vc.Obligation
+		for _, ob := range otherObs {
+			if !ob.Reach {
+				rest = append(rest, ob)
+			} else if !first[ob.Name] {
+				first[ob.Name] = true
+				stage1 = append(stage1, ob)
+			} else {
+				stage2 = append(stage2, ob)
+			}
+		}
+		otherObs = rest
+		o2 := opts
+		o2.TimeoutSec, o2.FirstTimeout, o2.AllAgree, o2.Single, o2.Batch = 2, 2, false, true, false
+		refuted := map[string]bool{}
+		for ob, r := range vc.SolveAll(stage1, o2) {
+			res[ob] = r
+			if r.Status == "unsat" {
+				refuted[ob.Name] = true
+			}
+		}
+		var again []*vc.Obligation
+		for _, ob := range stage2 {
+			if refuted[ob.Name] {
+				again = append(again, ob)
+			} else {
+				res[ob] = vc.SolveResult{Status: "skipped", Solver: "none"}
+			}
+		}
+		for ob, r := range vc.SolveAll(again, o2) {
+			res[ob] = r
+		}
+		// a refuted sample whose state was contradictory before the call already is a call in
+		// dead code (e.g. the default branch of an exhaustive switch), not a vacuity
+		var pres []*vc.Obligation
+		back := map[*vc.Obligation]*vc.Obligation{}
+		for _, ob := range append(append([]*vc.Obligation{}, stage1...), again...) {
+			if res[ob].Status == "unsat" && ob.PreQuery != "" {
+				p := &vc.Obligation{Name: ob.Name + "/before", Kind: "reach", Query: ob.PreQuery, Cover: true}
+				pres = append(pres, p)
+				back[p] = ob
+			}
+		}
+		for p, r := range vc.SolveAll(pres, o2) {
+			if r.Status == "unsat" {
+				x := res[back[p]]
+				x.Status = "dead"
+				res[back[p]] = x
+			}
+		}
+	}
 	if len(otherObs) > 0 {
 		o2 := opts
 		o2.TimeoutSec, o2.FirstTimeout, o2.AllAgree = 4, 4, false
@@ -352,6 +410,7 @@ func cmdCheck(args []string) int {
 		secs    float64
 		solvers map[string]int
 		cover   bool
+		reach, reachable, vacuous bool
 	}
 	byName := map[string]*agg{}
 	var names []string
@@ -386,6 +445,15 @@ func cmdCheck(args []string) int {
 		if ob.Cover {
 			ok = r.Status == "sat"
 		}
+		if ob.Reach {
+			a.reach = true
+			if r.Status != "unsat" && r.Status != "dead" {
+				a.reachable = true
+			}
+			if r.Status == "unsat" {
+				a.vacuous = true
+			}
+		}
 		if !ok {
 			a.bad = append(a.bad, ob)
 		}
@@ -399,7 +467,7 @@ func cmdCheck(args []string) int {
 		unclaimedRe = append(unclaimedRe, re)
 	}
 	kindOK := func(k string) bool {
-		if len(plan.Kinds) == 0 || k == "cover" {
+		if len(plan.Kinds) == 0 || k == "cover" || k == "reach" {
 			return true
 		}
 		for _, x := range plan.Kinds {
@@ -422,6 +490,7 @@ func cmdCheck(args []string) int {
 	var undecided []map[string]any
 	var knownLines []string
 	var coverNotRefuted []string
+	reachGuards := 0
 	var samples []map[string]any
 	replayDir := filepath.Join(*verif, "replays", *prop)
 	_ = os.MkdirAll(replayDir, 0o755)
@@ -463,6 +532,58 @@ func cmdCheck(args []string) int {
 				if res[b].Status == "unsat" {
 					refuted = true
 				}
+			}
+			if a.reach {
+				// reachability guard after a call: vacuous only when no sampled path stays satisfiable
+				dead := false
+				for _, d := range plan.DeadCalls {
+					if re, err := regexp.Compile(d.Match); err == nil && re.MatchString(n) {
+						dead = true
+					}
+				}
+				if dead {
+					continue
+				}
+				if !a.reachable && !a.vacuous {
+					continue // every sampled path was contradictory before the call: dead code
+				}
+				if !a.reachable {
+					// an assertion that failed earlier in the same function is assumed from there on
+					// and may itself make the rest of the path contradictory: the failed obligation
+					// is what gets reported (or is a listed finding / documented as unclaimed)
+					explained := false
+					for _, n2 := range names {
+						if a2 := byName[n2]; !a2.cover && len(a2.bad) > 0 && funcOf(n2) == funcOf(n) {
+							explained = true
+						}
+					}
+					for i := range ff.Findings {
+						if f := &ff.Findings[i]; f.Status == "finding" && funcOf(f.Obligation) == funcOf(n) {
+							explained = true // listed under some property: assumed after its site on this path
+						}
+					}
+					if !explained {
+						var same []*vc.Obligation
+						for _, ob := range dropped {
+							if funcOf(ob.Name) == funcOf(n) && !ob.Cover {
+								same = append(same, ob)
+							}
+						}
+						o2 := opts
+						o2.TimeoutSec, o2.FirstTimeout, o2.AllAgree = 4, 4, false
+						for _, r := range vc.SolveAll(same, o2) {
+							if r.Status != "unsat" {
+								explained = true
+							}
+						}
+					}
+					if explained {
+						continue
+					}
+					return engineErr("vacuity: %s: the state after the call is unsatisfiable on every sampled path (contradictory assumed contract, or a call in dead code: list it under dead_calls)", n)
+				}
+				reachGuards++
+				continue
 			}
 			if refuted {
 				return engineErr("vacuity: %s is unsatisfiable (contradictory precondition)", n)
@@ -564,6 +685,7 @@ func cmdCheck(args []string) int {
 			"generated_not_claimed": undecided,
 			"known_findings":  knownLines,
 			"vacuity_guards_not_refuted_but_no_model_found": coverNotRefuted,
+			"reachability_guards_after_calls_passed":         reachGuards,
 			"obligation_queries_of_other_kinds_not_decided_here": otherKinds,
 			"queries_retried_with_other_seeds":                 retried,
 			"decided_clauses": plan.Decided,
